@@ -95,7 +95,7 @@ PROPS["C07"] = dict(
     kani=[dict(files=["contracts/C07/c07.rs"], inject=[dict(file="contracts/C07/c07_archive.rs", into="src/components/archive.rs")])],
     native=[dict(files=["contracts/C07/whole_run_native.rs"],
                  harnesses={"c07_native_whole_runs": dict(anchor="whole runs of the shipped templates (reported best)",
-                            bound=B + "best reported at the end == minimum value the objective function returned")}),
+                            bound=B + "best reported at the end == minimum value the objective function returned; plus 24 CRO runs (12 seeds x 2 energy settings, 50 iterations) in which reactions are rejected for lack of energy")}),
             dict(files=[], inject=[dict(file="contracts/C07/c07_archive_native.rs", into="src/components/archive.rs")],
                  harnesses={"c07_native_archive_histories": dict(anchor="ElitistArchive::update (histories)",
                             bound="BOUNDED STAND-IN, native exhaustive enumeration: all 3-update histories with populations of 0..2 individuals, objective values in {1,2,3}, capacities 0..4 (10985 histories)")})],
